@@ -5,7 +5,7 @@
 (* x 0..2 adds x merge flag.  Exports the well-formed ones (for the        *)
 (* carrier property) and all of them (for crash-freedom).                  *)
 (***************************************************************************)
-EXTENDS DiffText, Json, IOUtils
+EXTENDS DiffText, JsonPatch, Json, IOUtils
 FieldOrder == [k |-> 0, v |-> 0]   \* must stay the first definition of a root module (JsonValue.tla)
 
 N1 == Num(8)
@@ -30,7 +30,28 @@ WildHunks == { Hunk(m, p, bf, rm, ad, af) :
                 m \in BOOLEAN, p \in WildPaths, bf \in WildCtx, rm \in AddVals, ad \in AddVals, af \in WildCtx }
 WF == { h \in AllHunks : WellFormedHunk(h) }
 
+(* ---- line kinds for arbitrary diff texts (C13): 8 header classes x payload classes ---- *)
+PathNodes == { EmptyArr, Arr(<<Str("k0")>>), Arr(<<Num(0)>>), Arr(<<Num(8)>>), Arr(<<Num(-8)>>), Arr(<<Num(12)>>), Arr(<<EmptyObj>>),
+               Arr(<<EmptyArr>>), Arr(<<Obj(IdObj)>>), Arr(<<Obj(IdObj), Str("v")>>), Arr(<<Arr(<<Obj(IdObj)>>)>>), Arr(<<Str("k0"), Num(0)>>),
+               Arr(<<Bool(TRUE)>>), Arr(<<Arr(<<N1, N2>>)>>), N1, EmptyObj }
+LineKinds ==
+  {Line("^", p) : p \in {Void, MergeMeta, EmptyObj, N1, Obj([x \in {"Merge"} |-> N1]), Obj([x \in {"Other"} |-> Bool(TRUE)]), Invalid}}
+  \cup {Line("@", p) : p \in PathNodes \cup {Void, Invalid}}
+  \cup {Line(h, p) : h \in {"[", "]"}, p \in {Void, N1}}
+  \cup {Line(h, p) : h \in {" ", "-", "+"}, p \in {Void, N1, Arr(<<N1>>), Obj([x \in {"k0"} |-> N1]), Invalid}}
+  \cup {Line("x", N1), Line("{", Void)}
+
+(* ---- operations for arbitrary JSON Patch documents (C13) ---- *)
+TokPaths == { <<>>, <<IdxTok(0)>>, <<IdxTok(1)>>, <<IdxTok(7)>>, <<DashTok>>, <<Tok("k0", -1)>>, <<Tok("k0", -1), IdxTok(0)>>,
+              <<IdxTok(0), IdxTok(0)>>, <<Tok("-1", -1)>> }
+OpKinds == { [op |-> o, path |-> p, value |-> x, from |-> <<>>, wf |-> TRUE] :
+               o \in {"test", "remove", "add", "replace", "move", "bogus"}, p \in TokPaths, x \in {N1, NoVal} }
+
 Dir == IOEnv.JDV_OUT
+ASSUME ndJsonSerialize(Dir \o "/linekinds.ndjson", SetToSeq(LineKinds))
+ASSUME ndJsonSerialize(Dir \o "/opkinds.ndjson", SetToSeq(OpKinds))
+ASSUME PrintT(<<"JDV-STAT", "line_kinds", Cardinality(LineKinds)>>)
+ASSUME PrintT(<<"JDV-STAT", "op_kinds", Cardinality(OpKinds)>>)
 ASSUME ndJsonSerialize(Dir \o "/hunks_wf.ndjson", SetToSeq(WF))
 ASSUME ndJsonSerialize(Dir \o "/hunks_wild.ndjson", SetToSeq(WildHunks))
 ASSUME PrintT(<<"JDV-STAT", "wf_hunks", Cardinality(WF)>>)
